@@ -12,7 +12,7 @@ def at_ (p : Pc) (t : Th) : Bool := t.pc == p
 structure Inv (s : St) : Prop where
   /-- every arrived message is in exactly one place: delivered, parked, or carried by a thread
   that has not parked or delivered it yet -/
-  cons : ∀ m, s.arrived.count m = s.delivered.count m + s.parked.count m + s.thr.countP (pre m)
+  cons : ∀ m, s.arrived.count m = s.delivered.count m + s.refused.count m + s.parked.count m + s.thr.countP (pre m)
   /-- a requested tree has a request in flight or about to leave -/
   reqd : s.tree = .requested → 0 < s.reqs ∨ 0 < s.thr.countP (at_ .send)
   /-- tree present and something parked: a flush is pending or the parking thread will re-check -/
@@ -74,10 +74,17 @@ theorem inv_thread (s : St) (i : Nat) (t : Th) (hI : Inv s) (ht : s.thr[i]? = so
       have g1 := f2 .send; have g2 := f2 .recheck; have g3 := f2 .chk; have g4 := f2 .reg
       simp at g1 g2 g3 g4
       simp only [stepTh, hpr, if_true]
-      refine ⟨fun m => ?_, ?_, ?_, ?_⟩
-      · have := hc m; have := f1 m
-        by_cases hm : m0 = m <;> simp_all [pre, List.count_append] <;> omega
-      all_goals (simp only [g1, g2, g3, g4]; grind)
+      cases hb : bad m0
+      · simp only [Bool.false_eq_true, if_false]
+        refine ⟨fun m => ?_, ?_, ?_, ?_⟩
+        · have := hc m; have := f1 m
+          by_cases hm : m0 = m <;> simp_all [pre, List.count_append] <;> omega
+        all_goals (simp only [g1, g2, g3, g4]; grind)
+      · simp only [if_true]
+        refine ⟨fun m => ?_, ?_, ?_, ?_⟩
+        · have := hc m; have := f1 m
+          by_cases hm : m0 = m <;> simp_all [pre, List.count_append] <;> omega
+        all_goals (simp only [g1, g2, g3, g4]; grind)
     · obtain ⟨f2, f1⟩ := move_counts ht .park
       have g1 := f2 .send; have g2 := f2 .recheck; have g3 := f2 .chk; have g4 := f2 .reg
       simp at g1 g2 g3 g4
@@ -214,7 +221,7 @@ each arrived message is in exactly one place — handed to its instance, parked,
 its arrival thread. -/
 theorem c01_conservation (as : List Act) (m : Nat) :
     let s := run {} as
-    s.arrived.count m = s.delivered.count m + s.parked.count m + s.thr.countP (pre m) :=
+    s.arrived.count m = s.delivered.count m + s.refused.count m + s.parked.count m + s.thr.countP (pre m) :=
   (inv_run as {} inv_init).cons m
 
 /-- nothing can move any more: no flush pending, no request unanswered, every thread finished -/
@@ -228,7 +235,8 @@ arrived message has been handed over exactly as often as it arrived — whether 
 knew the tree before, however arrivals, the request, the response, local registrations and
 flushes interleave. -/
 theorem c01_quiescent_exactly_once (as : List Act) (hq : Quiescent (run {} as)) :
-    (run {} as).parked = [] ∧ ∀ m, (run {} as).delivered.count m = (run {} as).arrived.count m := by
+    (run {} as).parked = [] ∧
+    ∀ m, (run {} as).delivered.count m + (run {} as).refused.count m = (run {} as).arrived.count m := by
   have hI := inv_run as {} inv_init
   generalize run {} as = s at *
   obtain ⟨hf, hr, ht⟩ := hq
@@ -256,6 +264,80 @@ theorem c01_quiescent_exactly_once (as : List Act) (hq : Quiescent (run {} as)) 
   have := hI.cons m
   rw [hp, hpre m] at this
   simp at this; omega
+
+/-- only messages whose token names no node of the tree are refused -/
+theorem refused_only_bad_step (s s' : St) (a : Act) (hs : step s a = some s')
+    (h : ∀ m ∈ s.refused, bad m = true) : ∀ m ∈ s'.refused, bad m = true := by
+  cases a with
+  | arrive m => simp [step] at hs; subst hs; exact h
+  | respond =>
+    simp only [step] at hs
+    split at hs
+    · simp at hs
+    · split at hs <;> (simp at hs; subst hs; exact h)
+  | localSet => simp [step] at hs; subst hs; exact h
+  | flush =>
+    simp only [step] at hs
+    split at hs
+    · simp at hs
+    · simp at hs; subst hs; exact h
+  | expire =>
+    simp only [step] at hs
+    split at hs
+    · simp at hs; subst hs; exact h
+    · simp at hs
+  | thread i =>
+    simp only [step] at hs
+    split at hs
+    · rename_i t _
+      split at hs
+      · simp at hs
+      · simp at hs; subst hs
+        obtain ⟨m0, pc0⟩ := t
+        cases pc0 <;> simp only [stepTh]
+        · split
+          · cases hb : bad m0
+            · simpa using h
+            · simp only [if_true]
+              intro m hm
+              simp at hm
+              rcases hm with hm | hm
+              · exact h m hm
+              · subst hm; exact hb
+          · exact h
+        · exact h
+        · split <;> exact h
+        · split <;> exact h
+        · exact h
+        · exact h
+        · exact h
+    · simp at hs
+
+theorem c01_refused_only_bad (as : List Act) : ∀ m ∈ (run {} as).refused, bad m = true := by
+  have : ∀ (as : List Act) (s : St), (∀ m ∈ s.refused, bad m = true) → ∀ m ∈ (run s as).refused, bad m = true := by
+    intro as
+    induction as with
+    | nil => intro s h; exact h
+    | cons a as ih =>
+      intro s h
+      simp only [run]
+      split
+      · exact ih _ (refused_only_bad_step _ _ _ ‹_› h)
+      · exact ih _ h
+  exact this as {} (by simp)
+
+/-- **exactly once, for every message with a proper token**: at quiescence a message whose token
+names a node of the tree was handed over exactly as often as it arrived — also when messages of
+other runs that were parked with it are refused with an error. -/
+theorem c01_quiescent_good_exactly_once (as : List Act) (hq : Quiescent (run {} as)) (m : Nat)
+    (hm : bad m = false) : (run {} as).delivered.count m = (run {} as).arrived.count m := by
+  have h := (c01_quiescent_exactly_once as hq).2 m
+  have hz : (run {} as).refused.count m = 0 := by
+    rw [List.count_eq_zero]
+    intro hmem
+    have := c01_refused_only_bad as m hmem
+    simp [hm] at this
+  omega
 
 /-- **no stranding**: whenever something is parked, some action is still enabled that leads to a
 flush (a pending flush, an unanswered request, or a thread that has not finished). -/
